@@ -175,6 +175,37 @@ def _g2(ctx, rid, roots, tag, title):
     guards_seen = {}
     g.parent = parent
     stale = [k for k in al if not k.startswith("_") and k not in F.fns]
+    borrowed = {}
+    rev = {}
+    for a, bs in g.edges.items():
+        for b in bs:
+            rev.setdefault(b, set()).add(a)
+
+    def neighbours(p):
+        """Direct callers and callees; a closure counts as part of the function it is written in."""
+        out = set(g.edges.get(p, ())) | rev.get(p, set())
+        for q in list(out):
+            if "::{closure" in q:
+                out |= set(g.edges.get(q, ())) | rev.get(q, set())
+        out.discard(p)
+        return out
+
+    def family(kd):
+        if kd == "K2:BoundsCheck" or re.match(r"K3:index:(Vec|\[T\]|VecDeque)\[usize\]$", kd):
+            return "elem-index"
+        m = re.match(r"K3:index:(str|String)\[Range", kd)
+        if m:
+            return "str-slice"
+        if re.match(r"K3:index:(Vec|\[T\])\[Range", kd):
+            return "range-slice"
+        return kd
+
+    def guard_ok(gname, q):
+        gk = ("guard", gname, q if gname == "range-end-clamped" else "")
+        if gk not in ctx.memo:
+            ctx.memo[gk] = GUARDS[gname](ctx, F.fns[q]) if gname in GUARDS and q in F.fns else (False, "unknown guard " + gname)
+        return ctx.memo[gk]
+
     for p, kds in sorted(inv.items()):
         fa = al.get(p, {})
         if not fa and stale:
@@ -208,6 +239,27 @@ def _g2(ctx, rid, roots, tag, title):
                     allowed = 0
             for i, (where, text) in enumerate(sites):
                 r.examine((p, kd, i), kd not in classes, {"fn": p, "site": kd, "where": where, "allowed": bool(entry)} if i == 0 else None)
+            if len(sites) > allowed and not void:
+                # moved / respelled sites: the part of a reviewed allowance that the tree no longer uses may cover sites of
+                # the same *family* (element index, str slice, range slice - `v[i]` on a Vec or on the slice it derefs to,
+                # `&s[0..i]` or `&s[..i]`) in the same function or in a function directly connected to it in the call graph
+                # (a helper extracted from its caller, a callee inlined into it).  The donor's guards must hold and every
+                # allowance is spent once, so a site that is added - rather than moved - still exceeds the reviewed total.
+                need = len(sites) - allowed
+                fam = family(kd)
+                for q in [p] + sorted(neighbours(p)):
+                    for kd2, qe in sorted(al.get(q, {}).items() if q in al else []):
+                        if need <= 0 or family(kd2) != fam or (q == p and kd2 == kd):
+                            continue
+                        if any(not guard_ok(gn, q)[0] for gn in qe.get("requires", [])):
+                            continue
+                        spare = qe["count"] - len(inv.get(q, {}).get(kd2, [])) - borrowed.get((q, kd2), 0)
+                        if spare > 0:
+                            take = min(spare, need)
+                            borrowed[(q, kd2)] = borrowed.get((q, kd2), 0) + take
+                            need -= take
+                            allowed += take
+                            r.info.append("moved site(s): %d x %s in %s covered by the unused allowance %s of %s (%s)" % (take, kd, p, kd2, "the same function" if q == p else "its call-graph neighbour " + q, qe["reason"][:80]))
             if len(sites) > allowed:
                 path = g.path_to(p, set(roots))
                 r.finding(p, "%s|n=%d" % (kd, len(sites)), sites[0][0],
@@ -271,14 +323,22 @@ def _g1(ctx, rid, roots, title):
     r.analysed["cyclic_components"] = len(comps)
     for p in reach:
         r.examine(p, len(g.edges.get(p, ())) > 0)
+    from . import report as _report
+    known_fns = set()
+    for prop_known in (_report.all_known() if hasattr(_report, "all_known") else []):
+        parts = prop_known.split("|")
+        if len(parts) >= 3 and parts[0] == rid:
+            known_fns.add(parts[1])
     for comp in comps:
-        rep = comp[0]
+        # the representative of a cycle is a member already named by a recorded finding, if any (so that a helper
+        # extracted from / added to a known cycle does not rename the finding), else the first member
+        rep = ([m for m in comp if m in known_fns] or comp)[0]
         entry = al.get(rep)
         path = g.path_to(rep, set(roots))
         if entry and sorted(entry.get("members", comp)) == comp:
             r.info.append("allowed recursion %s: %s" % (rep, entry["reason"]))
             continue
-        r.finding(rep, "recursion:%d" % len(comp), loc(F.fns[rep]["mir"]["blocks"][0]["term"]) if F.fns[rep]["mir"]["blocks"] else "-",
+        r.finding(rep, "recursion", loc(F.fns[rep]["mir"]["blocks"][0]["term"]) if F.fns[rep]["mir"]["blocks"] else "-",
                   "recursive call cycle {%s} reachable from the entry set: depth is bounded only by the data / input" % ", ".join(comp),
                   path=["call path: " + " -> ".join(path)])
     return r
